@@ -384,6 +384,10 @@ func (c *Ctx) summarizeContract(ws *writeSummary, ct *Contract) {
 		switch {
 		case m == "heap" || m == "everything":
 			ws.top = true
+		case strings.HasPrefix(m, "ghost "):
+			ws.all("GH|" + strings.TrimSpace(m[6:]))
+		case strings.HasPrefix(m, "chan "), strings.HasPrefix(m, "guarded "):
+			// channel state and lock-protected state are unstable anyway
 		case strings.HasPrefix(m, "fam "):
 			ws.all(strings.TrimSpace(m[4:]))
 		case strings.HasPrefix(m, "fields "), strings.HasPrefix(m, "elems "):
@@ -595,6 +599,11 @@ func (c *Ctx) summarizeContractAt(ws *writeSummary, ct *Contract, f *ssa.Functio
 			}
 		case "fam":
 			ws.all(strings.TrimSpace(rest))
+			continue
+		case "ghost":
+			ws.all("GH|" + strings.TrimSpace(rest))
+			continue
+		case "chan", "guarded":
 			continue
 		case "fields", "elems":
 			c.summarizeTypeItem(ws, m)
